@@ -174,6 +174,15 @@ def container_models(I, st, caller, func, args, argtys, dest_ty):
     if re.match(r"^<(Vec<.*>|\[.*\]) as Clone>::clone$", f) or re.match(r"^core::slice::<impl \[.*\]>::to_vec$", f):
         seq, _ = seq_of(I, st, args[0])
         return ret(st, Agg("vec", None, seq.fields))
+    if re.match(r"^core::slice::<impl \[.*\]>::last$", f):
+        seq, ref = seq_of(I, st, args[0])
+        if not seq.fields:
+            return ret(st, mk_option(False))
+        if ref is None:
+            I.frame_counter += 1
+            st.mem[(I.frame_counter, 0)] = seq
+            ref = Ref(I.frame_counter, 0, ())
+        return ret(st, mk_option(True, Ref(ref.frame, ref.local, tuple(ref.projs) + (("constindex", len(seq.fields) - 1, 0),))))
     if re.match(r"^<Vec<.*> as IntoIterator>::into_iter$", f):
         return ret(st, mk_iter(args[0], 0, "own"))
     if re.match(r"^<&(mut )?(Vec<.*>|\[.*\]) as IntoIterator>::into_iter$", f) or re.match(r"^core::slice::<impl \[.*\]>::iter(_mut)?$", f):
@@ -471,6 +480,8 @@ def map_models(I, st, caller, func, args, argtys, dest_ty):
                 if isinstance(k_, EnumV) and not any(k_.payloads.values()):
                     # fieldless enum with derived Ord: ordered by discriminant
                     return k_.discr if z3.is_expr(k_.discr) else z3.IntVal(k_.discr)
+                if isinstance(k_, Abs):
+                    return k_.term  # abstract keys: a total order on identities
                 return k_
             allk = [z3.simplify(keyterm(e.fields[0])) if z3.is_expr(keyterm(e.fields[0])) else keyterm(e.fields[0]) for e in mp.fields]
             if all(z3.is_expr(k_) and z3.is_int_value(k_) for k_ in allk):
